@@ -61,6 +61,8 @@ def _real_text(q):
 
 
 def lit_text(e, bare=False):
+    if e["n"] == "sci":                      # m e-p: a tiny literal, outside the exact arithmetic of the spec
+        return "%de-%d" % (e["v"][0], e["v"][1])
     q = frac(e["v"])
     if e["n"] == "bool":
         return "true" if q != 0 else "false"
